@@ -15,6 +15,7 @@ pub fn vm_read_all(vfs: &Memfs, p: &Path, d: String) { assert_vfs_read_all!(vfs,
 pub fn vm_readlink(vfs: &Memfs, p: &Path, t: &Path) { assert_vfs_readlink!(vfs, p, t); }
 pub fn vm_readlink_abs(vfs: &Memfs, p: &Path, t: &Path) { assert_vfs_readlink_abs!(vfs, p, t); }
 pub fn vm_mkdir_p(vfs: &Memfs, p: &Path) { assert_vfs_mkdir_p!(vfs, p); }
+pub fn vm_mkdir_m(vfs: &Memfs, p: &Path, m: u32) { assert_vfs_mkdir_m!(vfs, p, m); }
 pub fn vm_mkfile(vfs: &Memfs, p: &Path) { assert_vfs_mkfile!(vfs, p); }
 pub fn vm_write_all(vfs: &Memfs, p: &Path, d: &str) { assert_vfs_write_all!(vfs, p, d); }
 pub fn vm_copyfile(vfs: &Memfs, s: &Path, d: &Path) { assert_vfs_copyfile!(vfs, s, d); }
